@@ -1,6 +1,7 @@
 #!/bin/bash
 # runs every registered quick check on the current /repo and validates the evidence files
 cd "$(dirname "$0")/.."
+mkdir -p /tmp/me
 fail=0
 for p in $(python3 -c "import json;print(' '.join(c['property_id'] for c in json.load(open('MANIFEST.json'))['checks']))"); do
   /usr/bin/time -f "$p wall %es" ./check $p > /tmp/me/check_$p.out 2>&1; rc=$?
